@@ -717,7 +717,11 @@ def main(argv):
     proof_info, regen_info = {}, {}
     corr = Correspondence(pid, cfg, tier, seed)
     try:
-        # 1. regenerate + proofs
+        # 1. regenerate + proofs (serialised across concurrently running checks: they share
+        #    Ark/Generated and the lake build directory)
+        import fcntl
+        lockf = open(os.path.join(CACHE, "lean.lock"), "w")
+        fcntl.flock(lockf, fcntl.LOCK_EX)
         try:
             regen_info = regenerate()
         except Failure as ex:
@@ -735,6 +739,12 @@ def main(argv):
                 violations.append({"property": pid, "kind": "proof", "what": "leanchecker rejected Ark.Props.%s: %s" % (pid, (out + err)[-500:]), "ops": []})
         # 2. correspondence
         driver = build_driver()
+        # run against a private copy of the driver so that a concurrent rebuild cannot disturb it
+        priv = os.path.join(workdir, "arkdriver")
+        shutil.copy2(driver, priv)
+        driver = priv
+        fcntl.flock(lockf, fcntl.LOCK_UN)
+        lockf.close()
         corr.run(driver, workdir)
         # a broken proof with a clean correspondence: search harder for a failing input
         if violations and not corr.violations and any(v["kind"] in ("proof", "tie") for v in violations):
